@@ -360,7 +360,7 @@ def check_extraction(ctx, tpls, F):
         # helper functions the parser delegates the wrapper to (e.g. _fix_undelimited_seq_parsed_delimited) count as readers
         for c in walk_no_nested(fi.node):
             if isinstance(c, ast.Call) and isinstance(c.func, ast.Name):
-                for h in ctx.repo.mod('parsex').func(c.func.id):
+                for h in ctx.repo.find_funcs('parsex', c.func.id):
                     if not isinstance(h.node, ast.Lambda) and not c.func.id.startswith('parse'):
                         reads |= {x.attr for x in walk_no_nested(h.node) if isinstance(x, ast.Attribute)}
         # path of the wrapper node from the module root in the primary parse
